@@ -8,8 +8,10 @@ use crate::mc::Limits;
 
 pub fn model(tier: Tier, world: &str) -> Hist {
     let (w, s0) = world_by_name(if world.is_empty() { "A" } else { world });
-    let roots = standard_roots(&w, &s0, true);
+    let mut roots = standard_roots(&w, &s0, true);
+    roots.extend(tokenless_roots(&w, &s0));
     let mut alpha = Alphabet::standard(vec![0, 1], vec![0, 1]);
+    alpha.tokenless = true;
     if tier == Tier::Thorough {
         alpha.rich_amounts = true;
         alpha.max_clock_devs = 2;
